@@ -14,7 +14,11 @@ use crate::internal::table::{Rows, Table};
 use crate::internal::value::{Value, ValueRef};
 use cfb;
 use std::borrow::Borrow;
-use std::collections::{btree_map, BTreeMap, HashMap, HashSet};
+#[cfg(msi_verif)]
+use crate::internal::verif::{HashMap, HashSet};
+use std::collections::{btree_map, BTreeMap};
+#[cfg(not(msi_verif))]
+use std::collections::{HashMap, HashSet};
 use std::io::{self, Read, Seek, Write};
 use std::rc::Rc;
 use uuid::Uuid;
